@@ -73,6 +73,10 @@ TrDe ==
   /\ IF snap[Ev.g] = 0 THEN Has(Ev, "unsupported") /\ UNCHANGED <<cls, prev>>
      ELSE /\ IF Has(Ev, "ok") THEN Expect("deserialize succeeded", TRUE, Ev.ok)
              ELSE PrintT(<<"MISMATCH", l, "deserialize failed", Ev>>) /\ FALSE
+          \* no operation was applied between ser and de (same class): the public read position
+          \* (or, for the plain types, the whole state image) of the restored generator is the original's
+          /\ (snap[Ev.g] = cls[Ev.g] /\ Has(Ev, "obs") /\ Has(Ev, "obs_to")) =>
+                Expect("observation of the restored generator", Ev.obs, Ev.obs_to)
           /\ cls' = Set(cls, Ev.to, snap[Ev.g]) /\ prev' = Set(prev, Ev.to, 0)
   /\ UNCHANGED <<snap, fresh>>
 (* deserialization of a literal (possibly perturbed) image: an unrelated new generator *)
